@@ -1,0 +1,36 @@
+//go:build verif
+
+package incidentio
+
+// Contracts for govc (contract-based deductive verification). Comment-only file.
+
+// C20: with max_alerts set and exceeded, the first max_alerts alerts are sent and the number dropped is reported;
+// otherwise the batch is sent whole and nothing is reported as dropped.
+//@ func truncateAlerts
+//@   props C20
+//@   ensures [truncated] maxAlerts != 0 && len(alerts) > maxAlerts ==> len(result0) == maxAlerts && result1 == len(alerts) - maxAlerts && base(result0) == base(alerts)
+//@             && (forall i int :: 0 <= i && i < len(result0) ==> result0[i] == alerts[i])
+//@   ensures [whole] !(maxAlerts != 0 && len(alerts) > maxAlerts) ==> result0 == alerts && result1 == 0
+//@   ensures [accounted] len(result0) + result1 == len(alerts)
+//@   assigns nothing
+
+// C20: the incident.io integration. The template data (status, common labels, the alert list) is built from the batch
+// after max_alerts truncation, so the payload describes exactly the alerts it lists; the number dropped is reported;
+// a failure before the request is final, a transport failure is recoverable, with a response the status code decides.
+//@ func (*Notifier).Notify
+//@   props C20
+//@   nosafe
+//@   abstract
+//@   requires n != nil && n.conf != nil && n.retrier != nil
+//@   at call truncateAlerts assert [configured-maximum-applied-to-the-batch-first] arg0 == n.conf.MaxAlerts && arg1 == alerts && !called("GetTemplateData")
+//@   at call GetTemplateData assert [data-of-the-truncated-batch] called("truncateAlerts") && arg2 == ret("truncateAlerts")
+//@   at call Notifier).encodeMessage assert [payload-is-that-data-with-the-number-dropped] arg1 != nil && arg1.Data == ret("GetTemplateData") && arg1.TruncatedAlerts == ret1("truncateAlerts") && count("truncateAlerts") == 1 && count("GetTemplateData") == 1
+//@   at call notify.PostJSON assert [the-encoded-message-is-sent] arg1 == n.client && called("Notifier).encodeMessage") && ret1("Notifier).encodeMessage") == nil
+//@   ensures [a-transport-failure-is-recoverable] called("notify.PostJSON") && ret1("notify.PostJSON") != nil ==> result0 && result1 != nil && !called("Retrier).Check")
+//@   ensures [with-a-response-the-status-decides] called("Retrier).Check") ==> result0 == ret("Retrier).Check") && (result1 != nil) == (ret1("Retrier).Check") != nil)
+//@   ensures [a-response-is-judged] called("notify.PostJSON") && ret1("notify.PostJSON") == nil ==> called("Retrier).Check")
+//@   ensures [a-failure-before-sending-is-final] !called("notify.PostJSON") ==> !result0 && result1 != nil
+//@   after call notify.RedactURL assume (res0 != nil) == (arg0 != nil)
+//@   after call fmt.Errorf assume res0 != nil
+//@   after call notify.NewErrorWithReason assume res0 != nil
+//@   noeffect GetTemplateData ExtractGroupKey Notifier).encodeMessage notify.PostJSON RedactURL Drain NewErrorWithReason GetFailureReasonFromStatusCode
